@@ -12,6 +12,15 @@ What is regenerated from the source on every run:
                       (log / error text).  Any other use -- e.g. `open(path)` or `os.path.join(base, path)` in
                       an entry point -- makes the translator fail closed.  Proofs/PathProofs.v proves that the
                       model's run_entry uses exactly these guards (gen_guards_agree);
+  gen_handle_fields / gen_handle_writes / gen_guard_reads
+                      the STATE of a long-lived handle: which attributes LocalStorageBackend / DataFileManager objects carry
+                      (assigned in __init__ or in the class body), which (method, attribute) pairs STORE into an attribute
+                      outside __init__ (assignment, augmented assignment, item assignment / deletion, a mutating method call
+                      such as self.x.append / update / setdefault / pop), and which attributes the path guards and the
+                      entry points of the local backend READ.  Model/Path.v takes a handle to be its base string (run_entry,
+                      run_history, run_session have no other handle argument); Proofs/HandleState.v proves from these tables
+                      that no attribute a guard reads is ever written after construction.  setattr / __dict__ / vars() on
+                      self, decorators on a guard (functools caches) and `global` / `nonlocal` in a guard fail closed;
   golden shapes       canonical_path, _real_base_path, _resolve_path, _resolve_file_target, list_files,
                       _get_arrow_path, _get_arrow_write_path, open_parquet_source are modelled by hand in
                       Model/Path.v; their normalised AST must equal the shape the model was written against
@@ -155,6 +164,121 @@ def _guard_of(cls_fns: Dict[str, ast.FunctionDef], method: str, param: str, dept
     return guards.pop()
 
 
+MUTATORS = {"append", "add", "update", "pop", "popitem", "setdefault", "clear", "extend", "insert", "remove", "discard", "sort", "reverse",
+            "__setitem__", "__delitem__", "move_to_end", "appendleft", "popleft", "put", "put_nowait", "cache_clear"}
+# the functions whose attribute reads decide where a path goes
+LOCAL_GUARDS = ("_real_base_path", "_resolve_path", "_resolve_file_target")
+DFM_GUARDS = ("_get_arrow_path", "_get_arrow_write_path", "open_parquet_source")
+
+
+def _self_root(node: ast.AST) -> Optional[str]:
+    """`self.X`, `self.X[...]`, `self.X.y[...]` ... -> "X" (the attribute of self the expression is rooted at)."""
+    cur = node
+    while True:
+        if isinstance(cur, ast.Attribute) and isinstance(cur.value, ast.Name) and cur.value.id == "self":
+            return cur.attr
+        if isinstance(cur, (ast.Attribute, ast.Subscript)):
+            cur = cur.value
+            continue
+        if isinstance(cur, ast.Starred):
+            cur = cur.value
+            continue
+        return None
+
+
+def _targets(t: ast.AST) -> List[ast.AST]:
+    if isinstance(t, (ast.Tuple, ast.List)):
+        out: List[ast.AST] = []
+        for e in t.elts:
+            out += _targets(e)
+        return out
+    return [t]
+
+
+def _handle_state(cls_name: str, cls: ast.ClassDef) -> Tuple[List[str], List[Tuple[str, str]], Dict[str, List[str]]]:
+    """(attributes set up at construction, (method, attribute) stores outside __init__, method -> attributes it loads)."""
+    fns = {f.name: f for f in cls.body if isinstance(f, ast.FunctionDef)}
+    for f in cls.body:
+        if isinstance(f, ast.AsyncFunctionDef):
+            raise Unsupported(f"{cls_name}.{f.name}: async method")
+    fields: List[str] = []
+    for st in cls.body:                                   # class-level attributes are shared handle state as well
+        if isinstance(st, (ast.Assign, ast.AnnAssign)):
+            for t in (st.targets if isinstance(st, ast.Assign) else [st.target]):
+                for x in _targets(t):
+                    if isinstance(x, ast.Name) and x.id not in fields:
+                        fields.append(x.id)
+    writes: List[Tuple[str, str]] = []
+    reads: Dict[str, List[str]] = {}
+    for name, fn in fns.items():
+        stores: List[str] = []
+        loads: List[str] = []
+        for node in ast.walk(fn):
+            if isinstance(node, (ast.AsyncFunctionDef,)):
+                raise Unsupported(f"{cls_name}.{name}: nested async function")
+            if isinstance(node, ast.Call):
+                fx = node.func
+                if isinstance(fx, ast.Name) and fx.id in ("setattr", "delattr", "vars") and node.args and isinstance(node.args[0], ast.Name) and node.args[0].id == "self":
+                    raise Unsupported(f"{cls_name}.{name}: {fx.id}(self, ...) -- handle state written by a computed name")
+                if isinstance(fx, ast.Attribute) and fx.attr in ("__setattr__", "__delattr__"):
+                    raise Unsupported(f"{cls_name}.{name}: {fx.attr} call -- handle state written by a computed name")
+                if isinstance(fx, ast.Attribute) and fx.attr in MUTATORS:
+                    root = _self_root(fx.value)
+                    if root is not None:
+                        stores.append(root)
+            if isinstance(node, ast.Attribute) and isinstance(node.value, ast.Name) and node.value.id == "self":
+                if node.attr == "__dict__":
+                    raise Unsupported(f"{cls_name}.{name}: self.__dict__ -- handle state accessed by a computed name")
+                if isinstance(node.ctx, ast.Load) and node.attr not in fns:
+                    loads.append(node.attr)
+            tg: List[ast.AST] = []
+            if isinstance(node, ast.Assign):
+                for t in node.targets:
+                    tg += _targets(t)
+            elif isinstance(node, (ast.AugAssign, ast.AnnAssign)):
+                tg += _targets(node.target)
+            elif isinstance(node, ast.Delete):
+                for t in node.targets:
+                    tg += _targets(t)
+            elif isinstance(node, (ast.For, ast.AsyncFor)):
+                tg += _targets(node.target)
+            elif isinstance(node, (ast.With, ast.AsyncWith)):
+                for it in node.items:
+                    if it.optional_vars is not None:
+                        tg += _targets(it.optional_vars)
+            elif isinstance(node, ast.NamedExpr):
+                tg += _targets(node.target)
+            for x in tg:
+                root = _self_root(x)
+                if root is not None:
+                    stores.append(root)
+        if name == "__init__":
+            for a in stores:
+                if a not in fields:
+                    fields.append(a)
+        else:
+            for a in dict.fromkeys(stores):
+                writes.append((name, a))
+        reads[name] = list(dict.fromkeys(loads))
+    return fields, writes, reads
+
+
+def _no_hidden_state(key: str, fn: ast.FunctionDef) -> None:
+    """A guard keeps nothing between calls outside the handle: no decorator (functools.lru_cache / cache ...), no global / nonlocal."""
+    if fn.decorator_list:
+        raise Unsupported(f"{key}: decorated ({', '.join(ast.unparse(d) for d in fn.decorator_list)}) -- a caching decorator keeps validated paths between calls")
+    for node in ast.walk(fn):
+        if isinstance(node, (ast.Global, ast.Nonlocal)):
+            raise Unsupported(f"{key}: `{ast.unparse(node)}` -- module-level state in a path guard")
+
+
+def _class_def(mod: ast.Module, cls: str) -> ast.ClassDef:
+    for node in ast.walk(mod):
+        if isinstance(node, ast.ClassDef) and node.name == cls:
+            return node
+    raise Unsupported(f"class {cls} not found")
+
+
 def _class_functions(mod: ast.Module, cls: str) -> Dict[str, ast.FunctionDef]:
     for node in ast.walk(mod):
         if isinstance(node, ast.ClassDef) and node.name == cls:
@@ -192,14 +316,33 @@ def gen_path(src: str) -> str:
     dfm = _class_functions(do, "DataFileManager")
 
     check_golden("storage_backend.canonical_path", find_function(sb, "canonical_path"))
+    _no_hidden_state("storage_backend.canonical_path", find_function(sb, "canonical_path"))
     for m in ("_real_base_path", "_resolve_path", "_resolve_file_target", "list_files"):
         if m not in local:
             raise Unsupported(f"LocalStorageBackend.{m} not found")
         check_golden(f"storage_backend.LocalStorageBackend.{m}", local[m])
+        _no_hidden_state(f"storage_backend.LocalStorageBackend.{m}", local[m])
     for m in ("_get_arrow_path", "_get_arrow_write_path", "open_parquet_source"):
         if m not in dfm:
             raise Unsupported(f"DataFileManager.{m} not found")
         check_golden(f"data_operations.DataFileManager.{m}", dfm[m])
+        _no_hidden_state(f"data_operations.DataFileManager.{m}", dfm[m])
+
+    # the state of a long-lived handle
+    l_fields, l_writes, l_reads = _handle_state("LocalStorageBackend", _class_def(sb, "LocalStorageBackend"))
+    d_fields, d_writes, d_reads = _handle_state("DataFileManager", _class_def(do, "DataFileManager"))
+    fields_rows = [("LocalStorageBackend", f) for f in l_fields] + [("DataFileManager", f) for f in d_fields]
+    write_rows = [("LocalStorageBackend", m, f) for m, f in l_writes] + [("DataFileManager", m, f) for m, f in d_writes]
+    read_rows: List[Tuple[str, str, str]] = []
+    for m in local:                                        # every method of the local backend: guards, entry points, helpers
+        if m == "__init__":
+            continue
+        read_rows += [("LocalStorageBackend", m, f) for f in l_reads.get(m, [])]
+    for m in DFM_GUARDS:
+        read_rows += [("DataFileManager", m, f) for f in d_reads.get(m, [])]
+    for c, m, f in read_rows:
+        if (c, f) not in fields_rows:
+            raise Unsupported(f"{c}.{m} reads self.{f}, which is not set up by {c}.__init__ (state of unknown origin in a path guard)")
 
     # every public method of the local backend that takes a path-like first parameter must be in the table
     known = {m for _, m, _ in STORAGE_ENTRIES} | {"read_json"}
@@ -222,8 +365,16 @@ def gen_path(src: str) -> str:
         rows.append((ep, _guard_of(dfm, method, param)))
     dirs = _table_dirs(dfm["_get_arrow_path"])
     table = ";\n   ".join(f"({ep}, {g})" for ep, g in rows)
+
+    def q(x: str) -> str:
+        if not x.isidentifier():
+            raise Unsupported(f"attribute / method name {x!r} is not an identifier")
+        return '"' + x + '"'
+    fields_c = ";\n   ".join(f"({q(c)}, {q(f)})" for c, f in fields_rows)
+    writes_c = ";\n   ".join(f"({q(c)}, {q(m)}, {q(f)})" for c, m, f in write_rows)
+    reads_c = ";\n   ".join(f"({q(c)}, {q(m)}, {q(f)})" for c, m, f in read_rows)
     return f"""(* GENERATED by translator/gen_path.py from src/datashard/storage_backend.py and data_operations.py -- do not edit *)
-From Coq Require Import ZArith List.
+From Coq Require Import ZArith List String.
 Require Import DS.Model.Path.
 Import ListNotations.
 Open Scope Z_scope.
@@ -236,4 +387,17 @@ Inductive guard := GResolve | GFileTarget | GArrow | GArrowWrite.
 
 Definition gen_entry_guards : list (entry * guard) :=
   [{table}].
+
+(* ---- the state of a long-lived handle (class, attribute) / (class, method, attribute) ---- *)
+(* attributes an object carries: assigned in __init__ or in the class body *)
+Definition gen_handle_fields : list (String.string * String.string) :=
+  [{fields_c}]%string.
+
+(* stores into an attribute of self outside __init__ (assignment, item assignment / deletion, mutating method call) *)
+Definition gen_handle_writes : list (String.string * String.string * String.string) :=
+  [{writes_c}]%string.
+
+(* attributes of self that the path guards (DataFileManager) / all methods (LocalStorageBackend) load *)
+Definition gen_guard_reads : list (String.string * String.string * String.string) :=
+  [{reads_c}]%string.
 """
